@@ -275,4 +275,110 @@ theorem code_switches_are_the_listed_deviations :
                      execSelectNoop := knownExecSelectNoop } ∧
     Gen.Dispatch.numDatabases = numDbs ∧ Gen.Dispatch.blockingRegistries = numDbs ∧ emptyStore.length = numDbs := by decide
 
+/-! ### 6. SELECT inside MULTI -/
+
+/-- Prescribed (what Redis does): a SELECT queued in a transaction is executed by EXEC like any other command — the
+    commands queued after it run on the newly selected database and the selection stays after the transaction.
+    Stated for `MULTI; SELECT k; cmd; EXEC` with any valid SELECT spelling, any ordinary command and any state. -/
+theorem select_in_multi (q : Quirks) (st : State) (now c k : Nat) (e n0 a n : Bytes) (args : List Bytes) (obs : Option (List Bytes))
+    (he : nameOf [e] = "EXEC") (hn : nameOf [n0, a] = "SELECT") (hk : selectArg [a] = some k)
+    (h1 : nameOf (n :: args) ≠ "SELECT") (h2 : nameOf (n :: args) ≠ "BLPOP") (h3 : nameOf (n :: args) ≠ "BRPOP")
+    (h4 : nameOf (n :: args) ≠ "LPUSH") (h5 : nameOf (n :: args) ≠ "RPUSH")
+    (hb : (st.conns c).blocked = false) (hm : (st.conns c).inMulti = true)
+    (hq : (st.conns c).queue = [.plain [n0, a] none, .plain (n :: args) obs]) (hw : st.wakes = []) :
+    (exec Switches.fixed q st now c (.plain [e] none)).2.reply
+        = some (.array [ok, (KS.step q st.store k now (n :: args) obs).2]) ∧
+    (exec Switches.fixed q st now c (.plain [e] none)).1.store = (KS.step q st.store k now (n :: args) obs).1 ∧
+    ((exec Switches.fixed q st now c (.plain [e] none)).1.conns c).db = k ∧
+    ((exec Switches.fixed q st now c (.plain [e] none)).1.conns c).inMulti = false := by
+  have hne : ∀ s : String, s ≠ "EXEC" → ¬ nameOf [e] = s := fun s hs x => hs (x.symm.trans he)
+  simp [exec, reqName, he, hne, hb, hm, hq, execQueue, dispatch, hn, doSelect, hk, h1, h2, h3, h4, h5, updConn, access,
+    processWakes, hw, serve, Switches.fixed]
+
+/-- `MULTI; SELECT 1; SET k v; EXEC` by connection 1 on an empty server -/
+def selectInMultiWitness : List Dbs.Ev :=
+  [⟨1000, 1, .plain [wMULTI] none⟩, ⟨1000, 1, .plain [wSELECT, [49]] none⟩, ⟨1000, 1, .plain [wSET, [107], [118]] none⟩,
+   ⟨1000, 1, .plain [wEXEC] none⟩]
+
+/-- The code as it is violates it (witness, replayed on the server by lib/c18.py): EXEC re-dispatches with connection
+    id 0, the queued SELECT answers OK and selects nothing — `k` lands in database 0, database 1 stays empty and
+    the selection is still 0; the prescribed machine puts `k` into database 1 and leaves 1 selected. -/
+theorem select_in_multi_fails :
+    ((run { execSelectNoop := true } {} {} selectInMultiWitness).conns 1).db = 0 ∧
+    getDb (run { execSelectNoop := true } {} {} selectInMultiWitness).store 1 = [] ∧
+    getDb (run { execSelectNoop := true } {} {} selectInMultiWitness).store 0 = [([107], ⟨.str [118], none⟩)] ∧
+    ((run Switches.fixed {} {} selectInMultiWitness).conns 1).db = 1 ∧
+    getDb (run Switches.fixed {} {} selectInMultiWitness).store 1 = [([107], ⟨.str [118], none⟩)] ∧
+    getDb (run Switches.fixed {} {} selectInMultiWitness).store 0 = [] := by decide
+
+/-- What does hold for the code as it is: a transaction whose queue contains no SELECT is executed exactly as prescribed. -/
+theorem select_in_multi_partial (q : Quirks) (st : State) (now c : Nat) (r : Req)
+    (hq : ∀ x ∈ (st.conns c).queue, ∀ a o, x = .plain a o → nameOf a ≠ "SELECT") :
+    exec { execSelectNoop := true } q st now c r = exec Switches.fixed q st now c r := by
+  apply exec_eq_fixed
+  · cases r with
+    | plain a o => simp [Benign]
+    | script sha cmds => simp [Benign]
+  · intro x hx
+    cases x with
+    | plain a o => intro _; exact hq _ hx a o rfl
+    | script sha cmds => simp [Benign]
+
+/-! ### 7. Witnesses for the script path -/
+
+/-- `SELECT 3` by connection 1 -/
+def select3 : List Dbs.Ev := [⟨1000, 1, .plain [wSELECT, [51]] none⟩]
+
+/-- EVALSHA on database 0 violates the frame rule of the connection machine (the exact negation of `conn_step_frame`
+    for that switch): connection 1 has database 3 selected, its EVALSHA of a script doing `SET k v` changes database 0
+    and leaves database 3 empty. -/
+theorem evalsha_isolation_fails :
+    ∃ (st : State) (now c i j : Nat) (r : Req),
+      (st.conns c).db = i ∧ st.wakes = [] ∧ Clean false r ∧ reqName r ≠ "EXEC" ∧ j ≠ i ∧
+      getDb (exec { evalshaDb0 := true } {} st now c r).1.store j ≠ getDb st.store j ∧
+      getDb (exec { evalshaDb0 := true } {} st now c r).1.store i = [] := by
+  refine ⟨run {} {} {} select3, 1000, 1, 3, 0, .script true [[wSET, [107], [118]]], by decide, by decide, ?_, by decide, by decide,
+    by decide, by decide⟩
+  simp only [Clean, List.mem_singleton, forall_eq, true_and]
+  decide
+
+/-- `SET zero 1` by connection 2 (database 0); `SELECT 3; SET three 1` by connection 1 -/
+def twoDbs : List Dbs.Ev :=
+  [⟨1000, 2, .plain [wSET, [122], [49]] none⟩, ⟨1000, 1, .plain [wSELECT, [51]] none⟩, ⟨1000, 1, .plain [wSET, [116], [49]] none⟩]
+
+/-- FLUSHDB / DBSIZE from a script act on database 0 (same negation, for the second switch): with database 3
+    selected, `EVAL "return redis.call('FLUSHDB')" 0` empties database 0 and leaves database 3 as it was, and
+    `redis.call('DBSIZE')` counts database 0. -/
+theorem script_flushdb_isolation_fails :
+    ∃ (st : State) (now c i j : Nat) (r : Req),
+      (st.conns c).db = i ∧ st.wakes = [] ∧ Clean false r ∧ reqName r ≠ "EXEC" ∧ j ≠ i ∧
+      getDb (exec { scriptDbCmdsDb0 := true } {} st now c r).1.store j ≠ getDb st.store j ∧
+      getDb (exec { scriptDbCmdsDb0 := true } {} st now c r).1.store i = getDb st.store i ∧ getDb st.store i ≠ [] := by
+  refine ⟨run {} {} {} twoDbs, 1000, 1, 3, 0, .script false [[wFLUSHDB]], by decide, by decide, ?_, by decide, by decide,
+    by decide, by decide, by decide⟩
+  simp only [Clean, List.mem_singleton, forall_eq, true_and]
+  decide
+
+/-! ### Non-vacuity: the hypotheses are satisfiable, and the served path is really exercised -/
+
+example : Clean false (.plain [wGET, [107]] none) := by simp only [Clean]; decide
+example : Clean false (.script true [[wSET, [107], [118]], [wGET, [107]]]) := by
+  simp only [Clean, true_and]; intro x hx; simp at hx; rcases hx with h | h <;> subst h <;> decide
+example : selectArg [[43, 53]] = some 5 ∧ selectArg [[48, 48, 55]] = some 7 ∧ selectArg [[49, 54]] = none ∧
+    selectArg [[45, 48]] = none ∧ selectArg [[]] = none ∧ selectArg [[32, 49]] = none ∧ selectArg [[49, 46, 48]] = none ∧
+    selectArg [] = none ∧ selectArg [[49], [50]] = none := by decide
+/-- connection 1 blocks in database 3 (`SELECT 3; BLPOP l 0`); connection 2 pushes to `l` in database 0 (nobody is
+    served), selects 3 and pushes again: the pop that serves connection 1 runs on database 3, the element pushed in
+    database 0 is still there. -/
+example :
+    let evs : List Dbs.Ev :=
+      [⟨1, 1, .plain [wSELECT, [51]] none⟩, ⟨2, 1, .plain [[66, 76, 80, 79, 80], [108], [48]] none⟩,
+       ⟨3, 2, .plain [[82, 80, 85, 83, 72], [108], [97]] none⟩, ⟨4, 2, .plain [wSELECT, [51]] none⟩,
+       ⟨5, 2, .plain [[82, 80, 85, 83, 72], [108], [98]] none⟩]
+    (run Switches.fixed {} {} evs).log.map (fun a => (a.path, a.db, a.sel)) =
+        [(.direct, 3, 3), (.direct, 0, 0), (.direct, 3, 3), (.served, 3, 3)] ∧
+    getDb (run Switches.fixed {} {} evs).store 0 = [([108], ⟨.list [[97]], none⟩)] ∧
+    getDb (run Switches.fixed {} {} evs).store 3 = [] ∧
+    ((run Switches.fixed {} {} evs).conns 1).blocked = false := by decide
+
 end Ferrous.C18
